@@ -327,6 +327,7 @@ def run_case(case_id, tier="quick", seed=0, timeout_scale=1.0):
                 pc=[repr(x)[:160] for x in ob.hyps[-8:]],
                 exception=ob.info.get("exception"),
                 excuse=ob.info.get("excuse"),
+                structure=ob.info.get("structure"),
                 notes=[repr(n)[:80] for n in p.notes[:6]],
             )
             summary["obligations"].append(rec)
